@@ -28,6 +28,7 @@ type Program struct {
 
 	funcIndex map[string]*FuncInfo
 	parents   map[*packages.Package]map[ast.Node]ast.Node
+	graphs    map[*ast.BlockStmt]*FG
 }
 
 // FuncInfo describes one source function (declared function or method).
